@@ -137,6 +137,9 @@ def gen_sse42_cases(ctx):
         ln = r.randrange(8, 300)
         cases.append("sse42 %d %08x %s" % (r.randrange(16), r.getrandbits(32), hx(rand_bytes(r, ln))))
         ctx.count("sse42.random")
+    if vlib.NDEBUG_BUILD:
+        # len < 8 is outside the documented contract; with assert() compiled out nothing is promised
+        cases = [c for c in cases if len(c.split()[3].replace("-", "")) >= 16]
     return cases
 
 
